@@ -340,6 +340,15 @@ func (x *executor) panicFinding(p *exprgen.Prog, pi *panicInfo, where string, o 
 	fr := frames(pi.stack)
 	s, anon := site(fr)
 	class := panicClass(pi.val)
+	if class == "parent-context-not-set" {
+		// name the range helper that handed out the sub-context without a parent
+		for _, f := range fr {
+			if i := strings.Index(f, "stdlib.kfArray"); i >= 0 {
+				s += "[" + reFuncN.ReplaceAllString(f[i+len("stdlib."):], "") + "]"
+				break
+			}
+		}
+	}
 	if anon {
 		// an anonymous package-level closure (the body of divi, an operator of
 		// the formula language ...): name the helper it belongs to by running
